@@ -1281,6 +1281,227 @@ fn round_notime(seed: u64, tot: &Mutex<Tot>, prop: &str) {
 }
 
 // ---------------------------------------------------------------------------------------------
+// abort: the actor's JoinHandle is resolved by `JoinHandle::abort()` while strong references exist.
+// Whatever made the handle resolve, "is_alive() is false once its JoinHandle has resolved, after which
+// every send fails" (C11) and "every ask still pending on it and every later ask returns an Err" (C03).
+// ---------------------------------------------------------------------------------------------
+mod ab {
+    use rsactor::{Actor, ActorRef, ActorWeak, Message};
+    use std::sync::atomic::{AtomicU64, Ordering};
+    use std::sync::Arc;
+    pub struct A {
+        pub handled: Arc<AtomicU64>,
+        pub ticks: bool,
+    }
+    pub struct Args {
+        pub handled: Arc<AtomicU64>,
+        pub start_ms: u64,
+        pub ticks: bool,
+    }
+    pub struct Work(pub u64, pub u64);
+    impl Actor for A {
+        type Args = Args;
+        type Error = String;
+        async fn on_start(a: Args, _: &ActorRef<Self>) -> Result<Self, String> {
+            if a.start_ms > 0 {
+                tokio::time::sleep(std::time::Duration::from_millis(a.start_ms)).await;
+            }
+            Ok(A { handled: a.handled, ticks: a.ticks })
+        }
+        async fn on_run(&mut self, _: &ActorWeak<Self>) -> Result<bool, String> {
+            if self.ticks {
+                tokio::time::sleep(std::time::Duration::from_millis(1)).await;
+                Ok(true)
+            } else {
+                Ok(false)
+            }
+        }
+    }
+    impl Message<Work> for A {
+        type Reply = u64;
+        async fn handle(&mut self, w: Work, _: &ActorRef<Self>) -> u64 {
+            self.handled.fetch_add(1, Ordering::SeqCst);
+            if w.1 > 0 {
+                tokio::time::sleep(std::time::Duration::from_millis(w.1)).await;
+            }
+            w.0
+        }
+    }
+}
+
+fn round_abort(seed: u64, hb: &Heartbeat, tot: &Mutex<Tot>, prop: &str) {
+    use ab::*;
+    use rsactor::{ActorControl, AskHandler, TellHandler};
+    let mut r = Rng::new(seed);
+    let rt = match r.below(3) {
+        0 => tokio::runtime::Builder::new_current_thread().enable_time().build().unwrap(),
+        1 => tokio::runtime::Builder::new_multi_thread().worker_threads(2).enable_time().build().unwrap(),
+        _ => tokio::runtime::Builder::new_multi_thread().worker_threads(6).enable_time().build().unwrap(),
+    };
+    let situation = r.below(4); // 0 idle, 1 busy handler + queue, 2 on_run ticking, 3 still inside on_start
+    let cap = 1 + r.below(3) as usize;
+    let npend = 1 + r.below(4) as usize;
+    let pre_yield = r.below(3);
+    let bucket0 = hb.now_bucket();
+    let mut viol: Vec<(String, String)> = vec![];
+    let mut inconclusive = None;
+    let mut obl: Vec<&'static str> = vec![];
+    rt.block_on(async {
+        let handled = Arc::new(std::sync::atomic::AtomicU64::new(0));
+        let (a, jh) = rsactor::spawn_with_mailbox_capacity::<A>(
+            Args { handled: handled.clone(), start_ms: if situation == 3 { 30 } else { 0 }, ticks: situation == 2 },
+            cap,
+        );
+        let weak = rsactor::ActorRef::downgrade(&a);
+        let mut pend = vec![];
+        if situation == 1 || situation == 3 {
+            // one long handler, then askers and tellers that queue up (or park on the full mailbox) behind it
+            let a2 = a.clone();
+            pend.push(tokio::spawn(async move { a2.ask(Work(0, 30_000)).await.map(|_| ()) }));
+            tokio::time::sleep(Duration::from_millis(3)).await;
+            for k in 0..npend {
+                let a2 = a.clone();
+                let kind = r.below(4);
+                pend.push(tokio::spawn(async move {
+                    match kind {
+                        0 => a2.ask(Work(k as u64, 0)).await.map(|_| ()),
+                        1 => a2.ask_with_timeout(Work(k as u64, 0), Duration::from_secs(60)).await.map(|_| ()),
+                        2 => {
+                            let h: Box<dyn AskHandler<Work, u64>> = Box::new(a2.clone());
+                            h.ask(Work(k as u64, 0)).await.map(|_| ())
+                        }
+                        _ => match a2.tell(Work(k as u64, 0)).await {
+                            // a tell may be accepted (queued) - that is not a pending operation
+                            Ok(()) => Err(rsactor::Error::Runtime { identity: a2.identity(), details: "accepted".into() }),
+                            Err(e) => Err(e),
+                        },
+                    }
+                }));
+            }
+            tokio::time::sleep(Duration::from_millis(3)).await;
+        } else {
+            // make sure the actor is up (situation 0/2)
+            let _ = tokio::time::timeout(Duration::from_secs(10), a.ask(Work(7, 0))).await;
+        }
+        for _ in 0..pre_yield {
+            tokio::task::yield_now().await;
+        }
+        jh.abort();
+        let mut jh = jh;
+        let res = tokio::time::timeout(Duration::from_secs(10), &mut jh).await;
+        let Ok(res) = res else {
+            inconclusive = Some("the aborted JoinHandle did not resolve within 10 s".to_string());
+            return;
+        };
+        let how = match &res {
+            Ok(_) => "a normal result",
+            Err(e) if e.is_cancelled() => "JoinError::Cancelled",
+            Err(_) => "a panic",
+        };
+        // ---- the handle has resolved: from here on the actor is over
+        let h0 = handled.load(Ordering::SeqCst);
+        obl.push("C11.alive_false");
+        let ctl: Box<dyn ActorControl> = Box::new(a.clone());
+        let th: Box<dyn TellHandler<Work>> = Box::new(a.clone());
+        let up = weak.upgrade();
+        let mut alive = vec![];
+        if a.is_alive() {
+            alive.push("ActorRef");
+        }
+        if ctl.is_alive() {
+            alive.push("ActorControl");
+        }
+        if th.as_control().is_alive() {
+            alive.push("TellHandler::as_control");
+        }
+        if up.as_ref().map(|u| u.is_alive()).unwrap_or(false) {
+            alive.push("upgraded ActorWeak");
+        }
+        if !alive.is_empty() {
+            viol.push(("C11.alive_false".into(), format!("[abort] the actor's JoinHandle was aborted and resolved with {how} (situation {situation}), yet is_alive() is still true on {:?}", alive)));
+        }
+        obl.push("C11.send_after_end");
+        let mut okd = vec![];
+        match tokio::time::timeout(Duration::from_secs(10), a.tell(Work(100, 0))).await {
+            Ok(Ok(())) => okd.push("tell -> Ok".to_string()),
+            Ok(Err(_)) => {}
+            Err(_) => okd.push("tell still pending after 10 s".to_string()),
+        }
+        match tokio::time::timeout(Duration::from_secs(10), a.ask(Work(101, 0))).await {
+            Ok(Ok(v)) => okd.push(format!("ask -> Ok({v})")),
+            Ok(Err(_)) => {}
+            Err(_) => okd.push("ask still pending after 10 s".to_string()),
+        }
+        match tokio::time::timeout(Duration::from_secs(10), th.tell_with_timeout(Work(102, 0), Duration::from_millis(50))).await {
+            Ok(Ok(())) => okd.push("erased tell_with_timeout -> Ok".to_string()),
+            Ok(Err(_)) => {}
+            Err(_) => okd.push("erased tell_with_timeout still pending after 10 s".to_string()),
+        }
+        if !okd.is_empty() {
+            let clause = if okd.iter().any(|s| s.contains("pending")) { "C03.complete" } else { "C11.send_after_end" };
+            viol.push((clause.into(), format!("[abort] after the aborted JoinHandle resolved with {how} (situation {situation}): {:?}", okd)));
+        }
+        // pending operations must all finish with an error
+        obl.push("C03.complete");
+        let mut still = 0;
+        let mut okp = 0;
+        for (i, p) in pend.into_iter().enumerate() {
+            let mut p = p;
+            match tokio::time::timeout(Duration::from_secs(10), &mut p).await {
+                Ok(Ok(Ok(()))) => {
+                    // the long handler cannot have produced a reply; a queued ask can only be answered if it was handled
+                    if i == 0 {
+                        okp += 1;
+                    }
+                }
+                Ok(_) => {}
+                Err(_) => {
+                    still += 1;
+                    p.abort();
+                }
+            }
+        }
+        if still > 0 {
+            viol.push(("C03.complete".into(), format!("[abort] {still} operation(s) pending on the actor when its JoinHandle was aborted (resolved with {how}, situation {situation}, capacity {cap}) were still waiting 10 s later")));
+        }
+        if okp > 0 {
+            viol.push(("C03.integrity".into(), format!("[abort] an ask whose handler sleeps for 30 s returned Ok after the actor's JoinHandle was aborted (situation {situation})")));
+        }
+        tokio::time::sleep(Duration::from_millis(5)).await;
+        let h1 = handled.load(Ordering::SeqCst);
+        obl.push("C01.rejected");
+        if h1 > h0 {
+            viol.push(("C01.rejected".into(), format!("[abort] {} handler(s) were entered after the aborted JoinHandle had resolved with {how} (situation {situation})", h1 - h0)));
+        }
+        drop((ctl, th, up));
+    });
+    rt.shutdown_timeout(Duration::from_secs(2));
+    let stalled = hb.max_late_since(bucket0) > STALL_US;
+    let mut t = tot.lock().unwrap();
+    t.rounds += 1;
+    t.hashes.insert(mix(situation * 16 + cap as u64, (npend as u64) * 4 + pre_yield));
+    if let Some(m) = inconclusive {
+        t.inconclusive.push(format!("abort round {seed}: {m}"));
+        return;
+    }
+    if stalled && !viol.is_empty() {
+        t.inconclusive.push(format!("abort round {seed}: machine stalled, {} finding(s) dropped", viol.len()));
+        return;
+    }
+    for o in obl {
+        *t.obl.entry(o).or_default() += 1;
+    }
+    for p in ["C11", "C03", "C01"] {
+        *t.nontrivial.entry(p.into()).or_default() += 1;
+    }
+    for (c, m) in viol {
+        if prop == "all" || c.starts_with(prop) {
+            t.viol.push((c, m, seed, "abort".into()));
+        }
+    }
+}
+
+// ---------------------------------------------------------------------------------------------
 // spawn storm (C11 id uniqueness under parallel spawns from several threads and runtimes)
 // ---------------------------------------------------------------------------------------------
 mod storm {
@@ -1773,6 +1994,16 @@ pub fn cmd_mt(a: &Args) -> i32 {
                     }
                 });
                 rt.shutdown_timeout(Duration::from_secs(2));
+            }
+            "abort" => {
+                let mut n = 0u64;
+                while tp.elapsed() < per_profile {
+                    n += 1;
+                    round_abort(mix(base, ((pi as u64) << 56) ^ n), &hb, &tot, &prop);
+                    if tot.lock().unwrap().viol.len() > 5 {
+                        break;
+                    }
+                }
             }
             "notime" => {
                 let mut n = 0u64;
